@@ -1084,7 +1084,11 @@ func holdYield(site string) {
 
 // Lock / Unlock for sync.Mutex.
 func Lock(m *sync.Mutex, site string) {
-	if !lockReq(site, mutexAddr(m), KLock, "") && onRoot() {
+	if !lockReq(site, mutexAddr(m), KLock, "") {
+		if !onRoot() {
+			m.Lock() // no simulator, or a goroutine it does not schedule: the real lock decides
+			return
+		}
 		if !m.TryLock() {
 			panic(RootDeadlock{site})
 		}
@@ -1105,7 +1109,11 @@ func Unlock(m *sync.Mutex, site string) {
 
 // RWLock etc. for sync.RWMutex.
 func RWLock(m *sync.RWMutex, site string) {
-	if !lockReq(site, rwAddr(m), KLock, "rw") && onRoot() {
+	if !lockReq(site, rwAddr(m), KLock, "rw") {
+		if !onRoot() {
+			m.Lock()
+			return
+		}
 		if !m.TryLock() {
 			panic(RootDeadlock{site})
 		}
@@ -1125,7 +1133,11 @@ func RWUnlock(m *sync.RWMutex, site string) {
 }
 
 func RLock(m *sync.RWMutex, site string) {
-	if !lockReq(site, rwAddr(m), KRLock, "rw") && onRoot() {
+	if !lockReq(site, rwAddr(m), KRLock, "rw") {
+		if !onRoot() {
+			m.RLock()
+			return
+		}
 		if !m.TryRLock() {
 			panic(RootDeadlock{site})
 		}
